@@ -21,7 +21,8 @@ import vlib
 from checks.c01 import _files, _errclass
 
 THEOREMS = ["Yardl.C02.json_round_trip", "Yardl.C02.untagged_case_is_recovered", "Yardl.C02.json_type_is_announced",
-            "Yardl.C02.prim_kinds_sound", "Yardl.C02.prim_kinds_match_source", "Yardl.C02.nested_optional_collapses"]
+            "Yardl.C02.prim_kinds_sound", "Yardl.C02.prim_kinds_match_source", "Yardl.C02.nested_optional_collapses",
+            "Yardl.C02.flags_value_outside_declared_bits_is_a_number"]
 
 
 def run(report, tier, seed):
